@@ -6,7 +6,7 @@ import re
 from vf.coqterm import Z, N, B, S, L, T, C, Rec, Nat, Opt
 
 ID = "C03"
-COQ_TARGETS = ["props/C03.vo", "model/ProxyCheck.vo"]
+COQ_TARGETS = ["props/C03.vo", "model/ProxyCheck.vo", "lib/Pack.vo"]
 THEOREMS = [
     ("EG.props.C03", "C03_hop_by_hop_stripped"),
     ("EG.props.C03", "hop_table_complete"),
@@ -14,7 +14,6 @@ THEOREMS = [
     ("EG.props.C03", "C03_request_faithful"),
     ("EG.props.C03", "C03_response_content"),
     ("EG.props.C03", "C03_well_framed"),
-    ("EG.props.C03", "C03_checker_sound"),
     ("EG.props.C03", "C03_refuted_compress_len"),
     ("EG.props.C03", "C03_refuted_adaptor_body_len"),
     ("EG.props.C03", "C03_refuted_decoded_path"),
@@ -91,7 +90,7 @@ def pregen(repo, coqdir):
 def coq_header(kf_open):
     on = {k.get("flag") for k in kf_open}
     fields = "; ".join("%s := %s" % (f, "true" if f in on else "false") for f in FLAG_FIELDS)
-    return ("From EG.lib Require Import Base.\nFrom EG.model Require Import Body Proxy ProxyCheck.\n"
+    return ("From EG.lib Require Import Base Pack.\nFrom EG.model Require Import Body Proxy ProxyCheck.\n"
             "Open Scope Z_scope.\nDefinition pinned : quirks := {| %s |}.\n" % fields)
 
 
@@ -99,11 +98,35 @@ def _b(x):
     return base64.b64decode(x) if x else b""
 
 
-def _pairs(xs):
+class _Pool:
+    """Per-case pool of byte strings: every distinct long string is bound once by a `let`
+    (packed 7 bytes per primitive int, see coq/lib/Pack.v) and referred to by name."""
+
+    def __init__(self):
+        self.names = {}
+        self.defs = []
+
+    def s(self, x):
+        bs = x if isinstance(x, bytes) else x.encode("utf-8")
+        if len(bs) <= 24 and all(32 <= c < 127 and c != 34 for c in bs):
+            return S(bs)
+        if bs not in self.names:
+            name = "b%d_" % len(self.names)
+            self.names[bs] = name
+            words = [str(int.from_bytes(bs[k:k + 7], "big")) for k in range(0, len(bs), 7)]
+            last = len(bs) % 7 or 7
+            self.defs.append("let %s := unpack [%s]%%uint63 %d%%nat in" % (name, ";".join(words), last))
+        return self.names[bs]
+
+    def wrap(self, term):
+        return "(" + " ".join(self.defs) + " " + term + ")" if self.defs else term
+
+
+def _pairs(xs, S=S):
     return L([T(S(a), S(b)) for a, b in (xs or [])])
 
 
-def _hmap(xs):
+def _hmap(xs, S=S):
     """list of (canonical name, value) -> association list name -> [values] (first-seen key order)"""
     order, d = [], {}
     for k, v in (xs or []):
@@ -114,11 +137,11 @@ def _hmap(xs):
     return L([T(S(k), L([S(v) for v in d[k]])) for k in order])
 
 
-def _adapt(a):
+def _adapt(a, S=S):
     return Rec(a_on=B(a["on"]), a_body=S(a["body"]), a_compress=B(a["compress"]), a_decompress=B(a["decompress"]))
 
 
-def _target(t):
+def _target(t, S=S):
     return Opt(T(S(t["path"]), S(t["query"]))) if t["ok"] else "None"
 
 
@@ -134,40 +157,47 @@ def _cl(hs, kind, declared):
     return Opt(Z(declared)) if kind == "cl" and declared >= 0 else "None"
 
 
+def _encode_e2e(c):
+    i, o = c["in"], c["obs"]
+    pool = _Pool()
+    S = pool.s
+    orc = i["o"]
+    server_host = i["srvHost"] + ":PORT"
+    cfg = Rec(p_cstream=B(i["cstream"]), p_sstream=B(i["sstream"]), p_server_host=S(server_host),
+              p_host_is_name=B(orc["hostIsName"]), p_keep_host=B(i["keepHost"]),
+              p_minlen=Opt(Z(i["minLen"])) if i["minLen"] >= 0 else "None",
+              p_ra=_adapt(i["ra"], S), p_rs=_adapt(i["rs"], S))
+    parse = []
+    for t, p in ((orc["outDec"], orc["outDecP"]), (orc["outEsc"], orc["outEscP"])):
+        if p["ok"]:
+            parse.append(T(S(t), T(S(p["path"]), S(p["query"]))))
+    if o["btarget"] and o["bparsed"]["ok"]:
+        parse.append(T(S(o["btarget"]), T(S(o["bparsed"]["path"]), S(o["bparsed"]["query"]))))
+    obs = Rec(
+        x_got=B(o["got"]), x_status=Z(o["status"]), x_headers=_hmap(o["headers"], S),
+        x_cl=_cl(o["headers"], o["kind"], o["declared"]), x_body=S(_b(o["body"])), x_frame=B(o["frameOK"]),
+        x_dec=Opt(S(_b(o["dec"]))) if o["decOK"] else "None",
+        x_bcount=Z(o["bcount"]), x_bmethod=S(o["bmethod"]), x_btarget=S(o["btarget"]), x_bparsed=_target(o["bparsed"], S),
+        x_bhost=S(o["bhost"]), x_bheaders=_hmap(o["bheaders"], S), x_bbody=S(_b(o["bbody"])),
+        x_bdec=Opt(S(_b(o["bdec"]))) if o["bdecOK"] else "None")
+    return pool.wrap(Rec(
+        e_cfg=cfg, e_method=S(i["method"]), e_target=S(i["target"]), e_host=S(i["host"]),
+        e_hdrs=_pairs(i["headers"], S), e_body=S(_b(i["reqBody"])),
+        e_resp_status=Z(i["respStatus"]), e_resp_hdrs=_pairs(i["respHeaders"], S),
+        e_resp_enc=_enc(i["respEnc"], len(_b(i["respBody"]))), e_resp_body=S(_b(i["respBody"])),
+        e_gzip=L([T(S(_b(a)), S(_b(b))) for a, b in (orc["gzip"] or [])]),
+        e_gunzip=L([T(S(_b(g["in"])), Opt(S(_b(g["out"]))) if g["ok"] else "None") for g in (orc["gunzip"] or [])]),
+        e_client=_target(orc["client"], S), e_esc=S(orc["pathEsc"]),
+        e_out_dec=Opt(S(orc["outDec"])) if orc["outDecOK"] else "None",
+        e_out_esc=Opt(S(orc["outEsc"])) if orc["outEscOK"] else "None",
+        e_parse=L(parse), e_canon=_pairs(orc["canon"], S),
+        e_bad=B(bool(o.get("panic"))), e_obs=obs))
+
+
 def encode(c):
     i, o = c["in"], c["obs"]
     if c["grp"] == "e2e":
-        orc = i["o"]
-        server_host = i["srvHost"] + ":PORT"
-        cfg = Rec(p_cstream=B(i["cstream"]), p_sstream=B(i["sstream"]), p_server_host=S(server_host),
-                  p_host_is_name=B(orc["hostIsName"]), p_keep_host=B(i["keepHost"]),
-                  p_minlen=Opt(Z(i["minLen"])) if i["minLen"] >= 0 else "None",
-                  p_ra=_adapt(i["ra"]), p_rs=_adapt(i["rs"]))
-        parse = []
-        for t, p in ((orc["outDec"], orc["outDecP"]), (orc["outEsc"], orc["outEscP"])):
-            if p["ok"]:
-                parse.append(T(S(t), T(S(p["path"]), S(p["query"]))))
-        if o["btarget"] and o["bparsed"]["ok"]:
-            parse.append(T(S(o["btarget"]), T(S(o["bparsed"]["path"]), S(o["bparsed"]["query"]))))
-        obs = Rec(
-            x_got=B(o["got"]), x_status=Z(o["status"]), x_headers=_hmap(o["headers"]),
-            x_cl=_cl(o["headers"], o["kind"], o["declared"]), x_body=S(_b(o["body"])), x_frame=B(o["frameOK"]),
-            x_dec=Opt(S(_b(o["dec"]))) if o["decOK"] else "None",
-            x_bcount=Z(o["bcount"]), x_bmethod=S(o["bmethod"]), x_btarget=S(o["btarget"]), x_bparsed=_target(o["bparsed"]),
-            x_bhost=S(o["bhost"]), x_bheaders=_hmap(o["bheaders"]), x_bbody=S(_b(o["bbody"])),
-            x_bdec=Opt(S(_b(o["bdec"]))) if o["bdecOK"] else "None")
-        return Rec(
-            e_cfg=cfg, e_method=S(i["method"]), e_target=S(i["target"]), e_host=S(i["host"]),
-            e_hdrs=_pairs(i["headers"]), e_body=S(_b(i["reqBody"])),
-            e_resp_status=Z(i["respStatus"]), e_resp_hdrs=_pairs(i["respHeaders"]),
-            e_resp_enc=_enc(i["respEnc"], len(_b(i["respBody"]))), e_resp_body=S(_b(i["respBody"])),
-            e_gzip=L([T(S(_b(a)), S(_b(b))) for a, b in (orc["gzip"] or [])]),
-            e_gunzip=L([T(S(_b(g["in"])), Opt(S(_b(g["out"]))) if g["ok"] else "None") for g in (orc["gunzip"] or [])]),
-            e_client=_target(orc["client"]), e_esc=S(orc["pathEsc"]),
-            e_out_dec=Opt(S(orc["outDec"])) if orc["outDecOK"] else "None",
-            e_out_esc=Opt(S(orc["outEsc"])) if orc["outEscOK"] else "None",
-            e_parse=L(parse), e_canon=_pairs(orc["canon"]),
-            e_bad=B(bool(o.get("panic"))), e_obs=obs)
+        return _encode_e2e(c)
     if c["grp"] == "hop":
         return Rec(hc_in=_hmap_lists(i["header"]), hc_out=_hmap_lists(o["out"]), hc_canon=_pairs(i["canon"]))
     if c["grp"] == "addr":
